@@ -5,7 +5,7 @@ From updog Require Import Conc LockPolicy.
 From Gen Require Import LockFacts.
 Local Open Scope list_scope.
 
-Definition policy_C04 : policy := Eval vm_compute in LockPolicy.policy_C04 gen_mutexes gen_methods gen_external gen_selfsync gen_funs.
+Definition policy_C04 : policy := Eval vm_compute in choose_policy (LockPolicy.policy_C04 gen_mutexes gen_methods gen_external gen_selfsync gen_funs) gen_funs entries_C04 gen_all_mutexes.
 Definition funs := reachable_funs policy_C04 gen_funs entries_C04.
 Definition skeletons_C04 : list stmt := map gen_entry entries_C04.
 
